@@ -351,14 +351,17 @@ ChooseShape(sh) ==
   /\ shape' = sh
   /\ UNCHANGED <<world, outs, expr>>
 
-Next ==
-  \/ Part = "rewind" /\ world = <<>> /\ \E w \in Worlds : OpenWorld(w)
-  \/ Part = "rewind" /\ world # <<>> /\ outs = {} /\
-       \E p \in [1..world.depth -> Comps], amt \in Amts, mode \in Modes, fmt \in Fmts :
-         Create([seed |-> world.seed, path |-> p, amt |-> amt, mode |-> mode, fam |-> world.fam, fmt |-> fmt])
-  \/ Part = "rewind" /\ world # <<>> /\ outs # {} /\ Cardinality(outs) < MaxOuts /\ \E a \in Args : Create(a)
-  \/ Part = "algebra" /\ Len(expr) < MaxTerms /\ \E t \in Terms : AppendTerm(t)
-  \/ Part = "builder" /\ shape = <<>> /\ \E sh \in Shapes \cup CbShapes : ChooseShape(sh)
+OpenAny == Part = "rewind" /\ world = <<>> /\ \E w \in Worlds : OpenWorld(w)
+CreateFirst ==
+  Part = "rewind" /\ world # <<>> /\ outs = {} /\
+    \E p \in [1..world.depth -> Comps], amt \in Amts, mode \in Modes, fmt \in Fmts :
+      Create([seed |-> world.seed, path |-> p, amt |-> amt, mode |-> mode, fam |-> world.fam, fmt |-> fmt])
+CreateMore ==
+  Part = "rewind" /\ world # <<>> /\ outs # {} /\ Cardinality(outs) < MaxOuts /\ \E a \in Args : Create(a)
+AppendAny == Part = "algebra" /\ Len(expr) < MaxTerms /\ \E t \in Terms : AppendTerm(t)
+ShapeAny == Part = "builder" /\ shape = <<>> /\ \E sh \in Shapes \cup CbShapes : ChooseShape(sh)
+
+Next == OpenAny \/ CreateFirst \/ CreateMore \/ AppendAny \/ ShapeAny
 
 Spec == Init /\ [][Next]_vars
 
